@@ -59,7 +59,7 @@ def check_samples(ck: vlib.Check):
             conservative.append(name)
     ck.corr_count("ownership checker (Coq, on translated samples) vs observed mutation in Python: accepted => no argument changed",
                   len(mod.ARGS), len(unsound))
-    ck.extra["samples"] = {"functions": len(mod.ARGS), "mutating": mutating, "rejected": len(rejected),
+    ck.extra["sample_functions_validation"] = {"functions": len(mod.ARGS), "mutating": mutating, "rejected": len(rejected),
                            "accepted_but_mutating": unsound, "rejected_but_pure(conservative)": conservative}
     if info["uncovered"]:
         ck.oblige("samples:translated", False, json.dumps(info["uncovered"]))
